@@ -374,6 +374,10 @@ func (p *c16) checkErrors(r *core.CaseResult) {
 		{"dollar-zero-no-args", "SELECT $0 AS v FROM dual", nil},
 		{"huge-index", "SELECT $99999999999999999999 AS v FROM dual", []any{"a"}},
 		{"unsupported-type", "SELECT $1 AS v FROM dual", []any{struct{}{}}},
+		{"repeated-placeholder-with-surplus-argument", "SELECT $1 AS a, $1 AS b FROM dual", []any{"first", "second"}},
+		{"repeated-placeholder-with-gap", "SELECT $1 AS a, $3 AS b, $1 AS c FROM dual", []any{"x", "y", "z"}},
+		{"repeated-placeholder-three-times-two-unused", "SELECT $2 AS a, $2 AS b, $2 AS c FROM dual", []any{"x", "y", "z"}},
+		{"gap-only", "SELECT $2 AS a FROM dual", []any{"x", "y"}},
 	} {
 		_, err, pan := sanitizeNoPanic(c.tmpl, c.args...)
 		r.Execs++
@@ -386,6 +390,16 @@ func (p *c16) checkErrors(r *core.CaseResult) {
 			continue
 		}
 		r.Nontrivial = true
+	}
+	// a placeholder may be repeated: every occurrence receives the same argument
+	if s, err, pan := sanitizeNoPanic("SELECT $1 AS a, $2 AS b, $1 AS c FROM dual", "x'y", int64(7)); err != nil || pan != "" {
+		r.Fail("C16|repeated-placeholder|rejected", fmt.Sprintf("a repeated placeholder with an exact argument list was rejected: %v %s", err, pan), nil)
+	} else {
+		o := gq.Run(map[string]any{}, s)
+		r.Execs++
+		if got, want := outcome(o), gq.Render([]any{map[string]any{"a": "x'y", "b": 7.0, "c": "x'y"}}); got != want {
+			r.Fail("C16|repeated-placeholder|wrong-result", fmt.Sprintf("%q returned %s, want %s", s, got, want), nil)
+		}
 	}
 	p.checkSequences(r)
 }
